@@ -691,6 +691,7 @@ class Manager:
 
         if err is None:
             err = getattr(event, '_failed', None)
+        event._failed = None  # the event (object) may be fired again
 
         # The "%s_done" event is for internal use by waitEvent only.
         # Use the "%s_success" event in your application if you are
